@@ -221,6 +221,8 @@ def run_lockstep(ctx: Ctx) -> None:
                     ("region_of_interest", "start=(-1,1),size=(4,3),value=9", ((-1, 1), (4, 3)), dict(value=9), 9, "constant"),
                     ("narrow", "dim=3,start=1,length=2", (3, 1, 2), {}, None, "constant"),
                     ("narrow", "dim=2,start=0,length=2", (2, 0, 2), {}, None, "constant"),
+                    ("narrow", "dim=3,start=-2,length=2 (from the end)", (3, -2, 2), {}, None, "constant"),
+                    ("narrow", "dim=2,start=-3,length=2 (from the end)", (2, -3, 2), {}, None, "constant"),
                 ]
             else:
                 cases += [
@@ -233,6 +235,7 @@ def run_lockstep(ctx: Ctx) -> None:
                     ("region_of_interest", "start=(0,1,0),size=(2,2,1)", ((0, 1, 0), (2, 2, 1)), {}, None, "constant"),
                     ("narrow", "dim=4,start=0,length=1", (4, 0, 1), {}, None, "constant"),
                     ("narrow", "dim=2,start=1,length=1", (2, 1, 1), {}, None, "constant"),
+                    ("narrow", "dim=4,start=-1,length=1 (from the end)", (4, -1, 1), {}, None, "constant"),
                 ]
             for op, desc, args, kw, fill, mode in cases:
                 def th(op=op, args=args, kw=kw, fill=fill, mode=mode):
@@ -323,9 +326,11 @@ def _resample_obligations(ctx: Ctx, shape, ac: bool, tag: str, fR) -> None:
     ctx.rule("T13.resample", "ImageBatch.resample(spacing) (images sharing a symbolic spacing, own centers / orientations): the returned grid of "
                              "each image is Grid.resample(spacing) of its grid, its size is the data shape, and torch.grid_sample reads output "
                              "sample j at the continuous input index W_in^-1(W_out(j)) given by the two grids — for factors that divide the "
-                             "extent and factors that do not (the output extent is then larger than the input extent)")
+                             "extent and factors that do not (the output extent is then larger than the input extent), for the factor 1 (nothing to do) and for "
+                             "factors so close to 1 that the number of samples stays the same while their positions change")
     D = len(shape)
-    for fac in (Fraction(3, 2), Fraction(1, 2), Fraction(2), Fraction(5, 4), (Fraction(3, 2), Fraction(1), Fraction(2))[:D]):
+    for fac in (Fraction(3, 2), Fraction(1, 2), Fraction(2), Fraction(5, 4), (Fraction(3, 2), Fraction(1), Fraction(2))[:D], Fraction(1), Fraction(11, 10),
+                (Fraction(1), Fraction(21, 20), Fraction(1))[:D]):  # the last two keep the number of samples while changing the spacing
         def th(fac=fac):
             env = BatchEnv(ctx, shape, N=2, C=1, ac=ac)
             it = env.it
@@ -354,8 +359,13 @@ def _resample_obligations(ctx: Ctx, shape, ac: bool, tag: str, fR) -> None:
                 gsz = tuple(int(x) for x in it.method(rg[b], "size"))
                 if tuple(reversed(gsz)) != tuple(r.shape[2:]):
                     return False, f"item {b}: grid size {gsz} does not match data shape {tuple(r.shape[2:])}"
-            if tuple(r.shape[2:]) == tuple(shape):
-                return (teq(r.plain(), env.data), "same size: data changed")
+            if not calls:
+                # nothing was interpolated: legitimate only if the returned grids are the images' own grids (same sample positions)
+                for b in range(2):
+                    if not teq(env.gw(rg[b]), env.gw(grids[b])) or tuple(r.shape[2:]) != tuple(shape):
+                        return False, (f"item {b}: the data was returned without interpolation although the returned grid (spacing x {fac}) places its "
+                                       f"samples elsewhere than the image's grid")
+                return (teq(r.plain(), env.data), "same grid: data changed")
             if len(calls) != 1:
                 return False, f"{len(calls)} torch.grid_sample calls"
             c = calls[0]
